@@ -112,6 +112,19 @@ def gen_breaks(rng, nc, kind, p):
         a = rng.choice([0.0, -1.25, 3.5])
         s = rng.choice([1.0, 2.5, 0.3])
         return [a + s * b for b in br]
+    if kind == 'rawgentle':    # almost uniform: cell widths vary by a few 1e-7 relative (below the default tolerances of np.allclose)
+        w = [1.0 + 3e-7 * rng.randint(-9, 9) for _ in range(nc)]
+        a = rng.choice([0.0, -0.7, 2.0])
+        c = [a]
+        for x in w:
+            c.append(c[-1] + x * (1.0 / nc))
+        return c
+    if kind == 'rawtinyjit':   # a very small domain with strongly non-uniform cells (absolute tolerances see it as uniform)
+        w = [rng.uniform(0.7, 1.3) for _ in range(nc)]
+        c = [0.0]
+        for x in w:
+            c.append(c[-1] + x * 1e-7 / nc)
+        return c
     if kind == 'rawtiny':      # a very small domain: absolute tolerances (1e-8 and the like) are larger than a cell
         return list(np.linspace(0.0, 1e-7, nc + 1))
     if kind == 'rawfar':       # a domain far from the origin: tolerances relative to |x| are larger than a cell
@@ -207,6 +220,24 @@ def impl_1d(c):
             it.compute_interpolant(u * 2.0 ** k, s)
             ok = ok and bool(np.array_equal(s.coeffs, cf * 2.0 ** k))
         out['scale_ok'].append(ok)
+    # data type of the interpolator and of the spline it fills need not agree (the Poisson solver fills real and complex
+    # splines from a complex interpolator): real data must give the same coefficients through every combination
+    u0 = np.array([fl(t) for t in c['data'][0].split()])
+    it.compute_interpolant(u0, s)
+    ref = s.coeffs.copy()
+    mixed = {}
+    for nm, dti, dts in (('real-interpolator/complex-spline', float, complex), ('complex-interpolator/real-spline', complex, float),
+                         ('complex-interpolator/complex-spline', complex, complex)):
+        if b.periodic and dti is complex:
+            continue            # a complex interpolator on a periodic space is refused by the code (SuperLU factor of a real matrix)
+        try:
+            s2 = Spline1D(b, dtype=dts)
+            SplineInterpolator1D(b, dtype=dti).compute_interpolant(u0.astype(dti) if dti is complex else u0, s2)
+            mixed[nm] = float(np.abs(np.asarray(s2.coeffs) - ref).max())
+        except Exception as e:
+            mixed[nm] = 'raised %s: %s' % (type(e).__name__, str(e)[:80])
+    out['mixed'] = mixed
+    out['mixed_scale'] = float(np.abs(ref).max())
     if c.get('complex'):
         itc = SplineInterpolator1D(b, dtype=complex)
         sc = Spline1D(b, dtype=complex)
@@ -497,6 +528,15 @@ def check_1d(chk, c, r, stats):
         if not r['scale_ok'][j]:
             chk.violation('%s.compute_interpolant:rescaling:%s' % (SITE1, tag),
                           'power-of-two rescaling of the data does not rescale the coefficients exactly on %s' % tag, rep_j)
+        if j == 0:
+            for nm, dv in sorted(r.get('mixed', {}).items()):
+                chk.count((spd['breaks'], spd['p'], spd['periodic'], nm), stratum='dtypes:%s:%s' % (nm, tag))
+                bound_m = KB * nb * EPS * kappa * max(r.get('mixed_scale', 0.0), 1e-300)
+                if isinstance(dv, str) or not dv <= bound_m:
+                    chk.violation('%s.compute_interpolant:dtype-combination:%s' % (SITE1, nm),
+                                  'real data through a %s gives coefficients that differ from the real interpolation by %s (bound %.3g) on %s, %d cells'
+                                  % (nm.replace('/', ' filling a '), dv if isinstance(dv, str) else '%.3g' % dv, bound_m, tag, spd['nc']),
+                                  dict(rep_j, dtype_combination=nm))
         # model coefficients
         if 'interp' in m:
             a = m['interp']
